@@ -37,6 +37,10 @@ def _worker(args):
         sys.setrecursionlimit(int(os.environ.get("VERIF_RECURSION", "3000")))
         # Hypothesis's gc callback may run at the bottom of a deliberately deep stack: not worth a traceback
         sys.unraisablehook = lambda u: None if isinstance(u.exc_value, RecursionError) else sys.__unraisablehook__(u)
+        # (its gc callback only feeds Hypothesis's per-example deadline accounting, which is switched off here)
+        for _m in list(sys.modules.values()):
+            if getattr(_m, "__name__", "").startswith("hypothesis") and hasattr(_m, "gc_cumulative_time"):
+                _m.gc_cumulative_time = lambda: 0.0
         from harness import core, findings
 
         mod = _load(prop_id)
